@@ -33,7 +33,7 @@ NAMES = ['secret', 'secret_key', 'db_secret_url', 'my_secretX', 'token', 's', 'p
          u'caf\udce9 file', u'secret caf\udce9', u'<b>&"name"']   # names that are not identifiers: surrogate-escaped, markup
 KINDS = ['str', 'bytes', 'int', 'nested', 'reprobj', 'longstr', 'surrstr']
 MOUNTS = ['/_meta/', '/m', '/', 'deep']
-MWSETS = ['none', 'cookie', 'custom', 'subclass', 'provides-shapes']
+MWSETS = ['none', 'cookie', 'custom', 'subclass', 'provides-shapes', 'ctxproc-of-resources']
 VIEWS = ['html', 'json']
 COOKIE_KEY = b'ZQCOOKIEKEY77abc'
 EXC_TYPES = ['ValueError', 'KeyError', 'RuntimeError', 'OSError', 'ZeroDivisionError', 'NotImplementedError', 'CustomError',
@@ -174,6 +174,11 @@ def build_host(resources, mwset, mount, meta=None):
             def request(self, next):
                 return next()
         mws = [Custom(), SignedCookieMiddleware(secret_key=COOKIE_KEY, arg_name='sess')]
+    elif mwset == 'ctxproc-of-resources':
+        # the host copies every resource that is an identifier into every render context (its own pages want them)
+        from clastic.middleware import SimpleContextProcessor
+        names = [n for n in resources if n.isidentifier()]
+        mws = [SimpleContextProcessor(*names)] if names else []
     elif mwset == 'badrepr':
         class BadReprMW(Middleware):
             def __repr__(self):
@@ -207,6 +212,9 @@ def build_host(resources, mwset, mount, meta=None):
             def request(self, next):
                 return next(zq_l=1)
         mws = [PF(), PK(), PL()]
+    class Tmpl(object):
+        def __repr__(self):
+            return '<Tmpl object>'
     meta = meta or MetaApplication()
     if mount == 'deep':
         host = Application(routes + [('/m', meta)], resources=dict(resources), middlewares=mws)
